@@ -103,6 +103,9 @@ func c04Conn(rng *rand.Rand, names []string, tag string, nm int) *ConnScript {
 }
 
 func runC04(r *fw.Run) {
+	for k := 0; k < r.Pick(40, 400) && r.ViolationCount() <= 12; k++ {
+		c04ManyAtOnce(r, k)
+	}
 	rng := rand.New(rand.NewSource(r.Seed*7 + 4))
 	sets := r.Pick(60, 600)
 	perSet := r.Pick(12, 40)
@@ -116,7 +119,8 @@ func runC04(r *fw.Run) {
 		if k%3 == 2 && len(names) >= 2 {
 			first, later = names[:len(names)/2], names[len(names)/2:]
 		}
-		g, err := newRig(r, RigOpt{Transport: "unix", Ifaces: first, UseListen: k%2 == 1})
+		// every fourth set is registered from goroutines released at the same instant
+		g, err := newRig(r, RigOpt{Transport: "unix", Ifaces: first, UseListen: k%2 == 1, ConcurrentReg: k%4 == 1 && len(first) >= 2})
 		if err != nil {
 			rigFailure(r, "C04", err, names)
 			continue
@@ -191,12 +195,40 @@ func runC04(r *fw.Run) {
 	}
 }
 
+// c04ManyAtOnce: twelve distinct names registered from twelve goroutines at the same instant on a service that is not
+// serving yet; then each of them is called: listed once (checked by the rig), routed to its own dispatcher.
+func c04ManyAtOnce(r *fw.Run, k int) {
+	var names []string
+	for i := 0; i < 12; i++ {
+		names = append(names, fmt.Sprintf("org.example.r%d.n%d", k, i))
+	}
+	g, err := newRig(r, RigOpt{Transport: "unix", Ifaces: names, UseListen: k%2 == 0, ConcurrentReg: true})
+	if err != nil {
+		rigFailure(r, "C04", err, names)
+		return
+	}
+	cc := &c01Case{Transport: "unix", UseListen: k%2 == 0, Ifaces: append([]string{}, g.Reg.Names[1:]...)}
+	cs := &ConnScript{}
+	for i, n := range names {
+		cs.Calls = append(cs.Calls, GenCall{Method: n + ".M", Script: &CallScript{ID: fmt.Sprintf("many%d.%d", k, i), Steps: []Step{{Op: "reply"}}}})
+	}
+	cc.Conns = append(cc.Conns, cs)
+	r.Journal(0, cc)
+	c01Round(r, g, "C04", cc, true)
+	r.Done(0)
+	r.Count("sets_registered_at_the_same_instant", 1)
+	r.Case(fw.Hash("many-at-once", fmt.Sprint(k)), true)
+	if _, ok := g.Stop(); !ok {
+		r.Violation("C04 no-return-after-shutdown", "serving call did not return within 30 s after Shutdown", names)
+	}
+}
+
 func replayC04(r *fw.Run, raw json.RawMessage) { replayRound(r, raw, "C04") }
 
 func init() {
 	fw.Register(&fw.Engine{
 		ID: "C04", Level: "exploration",
-		Rule: "a case = (set of 1..6 registered interface names drawn to be adversarial to each other: a.b / a.b.c / a.b.c.d / a.bc / A.b / a. / .a / a..b / near-misses of org.varlink.service / unicode / empty name; one connection of 10 (quick) or 20 (thorough) method strings: every registered name with .M, without method, with trailing/leading/doubled dots, with prefixes, suffixes, halves, case changes, one char more or less, unicode, NUL, 6000- and 20000-character names, org.varlink.service methods and near-misses; scripted / more / unscripted parameters), always followed by a GetInfo on the same connection (the connection must still be usable) and in a third of the cases by a frame that is not an object with a string method, followed by one more call that must never be dispatched. Oracle: the routing model written from the statement (split at the last '.', index <= 0 => InvalidParameter(method), org.varlink.service built in, exact table lookup, InterfaceNotFound otherwise): exactly the predicted reply per call, exactly the predicted dispatcher invocations (interface, method name, once), none for any other peer. distinct by hash of names+calls. Also: every third name set is registered in two steps on the same object (the later names are first called while unknown, then registered during a pause in serving, then called again); a third of the calls carry flag combinations; method strings with outer white space; frames without a method member right after a dispatched call; a registration attempt made while serving (refused) for names that are then called: InterfaceNotFound, no dispatch; handlers that answer with a standard error carrying the same strings the routing errors carry.",
+		Rule: "a case = (set of 1..6 registered interface names drawn to be adversarial to each other: a.b / a.b.c / a.b.c.d / a.bc / A.b / a. / .a / a..b / near-misses of org.varlink.service / unicode / empty name; one connection of 10 (quick) or 20 (thorough) method strings: every registered name with .M, without method, with trailing/leading/doubled dots, with prefixes, suffixes, halves, case changes, one char more or less, unicode, NUL, 6000- and 20000-character names, org.varlink.service methods and near-misses; scripted / more / unscripted parameters), always followed by a GetInfo on the same connection (the connection must still be usable) and in a third of the cases by a frame that is not an object with a string method, followed by one more call that must never be dispatched. Oracle: the routing model written from the statement (split at the last '.', index <= 0 => InvalidParameter(method), org.varlink.service built in, exact table lookup, InterfaceNotFound otherwise): exactly the predicted reply per call, exactly the predicted dispatcher invocations (interface, method name, once), none for any other peer. distinct by hash of names+calls. Also: every third name set is registered in two steps on the same object (the later names are first called while unknown, then registered during a pause in serving, then called again); a third of the calls carry flag combinations; method strings with outer white space; frames without a method member right after a dispatched call; a registration attempt made while serving (refused) for names that are then called: InterfaceNotFound, no dispatch; handlers that answer with a standard error carrying the same strings the routing errors carry; every fourth name set is registered from goroutines released at the same instant (each name must then be listed once and routed).",
 		Assumptions: []string{"interface names are compared as exact byte strings"},
 		Run:         runC04, Replay: replayC04, CrashIsViolation: true, MinEvals: 100,
 		QuickTimeout: 10 * time.Minute, ThoroughTimeout: 40 * time.Minute,
